@@ -29,7 +29,10 @@ ASSUMPTIONS = [
     "in the dedicated wrap clause",
 ]
 
-OK, RETRY_CODES, FATAL_CODES = 0x80, [0x8d, 0x82], [0x84, 0x87, 0x81, 0x8e]
+# every return code the documentation lists: two retryable, thirteen fatal
+OK, RETRY_CODES = 0x80, [0x8d, 0x82]
+FATAL_CODES = [0x84, 0x87, 0x81, 0x8e, 0x83, 0x85, 0x86, 0x88, 0x89, 0x8a,
+               0x8b, 0x8c, 0x8f]
 
 
 class Echo(object):
@@ -76,7 +79,7 @@ class Plan(object):
             if kind == "retry":
                 r[10:12] = struct.pack("<H", RETRY_CODES[code % 2])
             elif kind == "fatal":
-                r[10:12] = struct.pack("<H", FATAL_CODES[code % 4])
+                r[10:12] = struct.pack("<H", FATAL_CODES[code % len(FATAL_CODES)])
             self.used.append(kind if mult < 1.0 or kind != "ok"
                              else "late-ok")
             out.append((mult * self.base, bytes(r)))
@@ -92,7 +95,7 @@ def plan_entry():
                              2.0, 2.6, 4.0, 7.5])
     ok = st.tuples(st.just("ok"), delay, st.just(0))
     retry = st.tuples(st.just("retry"), delay, st.integers(0, 1))
-    fatal = st.tuples(st.just("fatal"), delay, st.integers(0, 3))
+    fatal = st.tuples(st.just("fatal"), delay, st.integers(0, 12))
     reply = st.one_of(ok, ok, ok, ok, retry, st.one_of(ok, ok, ok, fatal))
     return st.one_of(
         st.just({"req_lost": False, "replies": [["ok", 0.0, 0]]}),
